@@ -514,8 +514,8 @@ class Machine:
             return False, True
         base = st.cond + self.sem.range_assumptions
         self.stats["branch_queries"] += 2
-        r1, _ = smt.check(base + [c], 5000, count=False)
-        r2, _ = smt.check(base + [z3.Not(c)], 5000, count=False)
+        r1, _ = smt.check(base + [c], 5000)
+        r2, _ = smt.check(base + [z3.Not(c)], 5000)
         return r1 != "unsat", r2 != "unsat"
 
     def run(self, st0, step_bound=STEP_BOUND):
